@@ -2,8 +2,15 @@
 use crate::engine::{Check, Run};
 use serde_json::Value;
 
+pub mod pipe;
 pub mod c02;
 pub mod c03;
+pub mod c04;
+pub mod c05;
+pub mod c06;
+pub mod c07;
+pub mod c08;
+pub mod c09;
 pub mod c10;
 pub mod c11;
 pub mod c12;
@@ -15,6 +22,12 @@ pub fn run(id: &str, run: &Run) {
     match id {
         "C02" => c02::run(run),
         "C03" => c03::run(run),
+        "C04" => c04::run(run),
+        "C05" => c05::run(run),
+        "C06" => c06::run(run),
+        "C07" => c07::run(run),
+        "C08" => c08::run(run),
+        "C09" => c09::run(run),
         "C10" => c10::run(run),
         "C11" => c11::run(run),
         "C12" => c12::run(run),
@@ -32,6 +45,12 @@ pub fn replay(id: &str, run: &Run, case: &Value) -> Check {
     match id {
         "C02" => c02::replay(run, case),
         "C03" => c03::replay(run, case),
+        "C04" => c04::replay(run, case),
+        "C05" => c05::replay(run, case),
+        "C06" => c06::replay(run, case),
+        "C07" => c07::replay(run, case),
+        "C08" => c08::replay(run, case),
+        "C09" => c09::replay(run, case),
         "C10" => c10::replay(run, case),
         "C11" => c11::replay(run, case),
         "C12" => c12::replay(run, case),
